@@ -8,7 +8,7 @@ POOL_STATE_INVS = "TypeOK AtMostOnce WgExact PoolBound WaitBarrier RoundBarrier 
 # (Family, MaxW, MaxS, MaxPer, MaxRounds)
 PLAN = {
     "C12": dict(mc_q=[("full", 2, 2, 2, 2), ("gated", 2, 2, 2, 1)], mc_t=[("full", 3, 2, 3, 2), ("gated", 2, 2, 2, 2), ("gated", 3, 2, 2, 1)],
-                gen_q=("small,big,mixed,barrier", 25), gen_t=("small,big,mixed,barrier", 500), cap_q=1500, cap_t=20000),
+                gen_q=("small,big,mixed,barrier,latesubmit", 25), gen_t=("small,big,mixed,barrier,latesubmit", 500), cap_q=1500, cap_t=20000),
     "C08": dict(mc_q=[("full", 2, 2, 2, 1), ("gated", 2, 1, 3, 1)], mc_t=[("full", 3, 2, 3, 1), ("gated", 3, 1, 3, 1)],
                 gen_q=("barrier,small", 40), gen_t=("barrier,small,mixed", 400), cap_q=600, cap_t=5000),
 }
@@ -67,7 +67,7 @@ def collect(pid, tier, seed, d):
     # code -> spec: small recorded histories must be explained by FlytPool (send and pickup inferred as silent steps)
     def small(r):
         c = r["cfg"]
-        return (c["S"] * c["per"] * c["rounds"] <= 8 and max(c["W"], 1) <= 3
+        return (c["sched"] != "latesubmit" and c["S"] * c["per"] * c["rounds"] <= 8 and max(c["W"], 1) <= 3
                 and not any(e["ev"] in ("hang", "stuck", "race", "panic") for e in r["h"]))
     tv_n, tv_ok, tv_states, tv_trans = trace_validate(d, "TracePool", hist, keep=small, shards=4, limit=600 if tier == "quick" else 6000)
     states += tv_states; transitions += tv_trans
